@@ -189,3 +189,83 @@ def taproot_closure(ex, nin, explicit):
     claims["engine_accepts_the_finalized_spend"] = ok_all
     return claims
 
+
+
+# ------------------------------------------------------------------ taproot script path (single-key leaf)
+from btclib.script import taproot as _taproot
+from btclib.script.script import serialize as _ser
+
+_G2 = bytes.fromhex("c6047f9441ed7d6d3045406e95c07cd85c778e4b8cef3ca7abac09b95c709ee5")
+_TAP = {}
+
+
+def _tap_setup():
+    """Concrete taproot output with two leaves (real SHA-256 / secp256k1): leaf 0 = <G2> CHECKSIG, leaf 1 = OP_1."""
+    if not _TAP:
+        tree = [[(0xC0, [_G2.hex().upper(), "OP_CHECKSIG"])], [(0xC0, ["OP_1"])]]
+        q, _ = _taproot.output_pubkey("02" + _G.hex(), tree)
+        script, control = _taproot.input_script_sig("02" + _G.hex(), tree, 0)
+        sbytes = _ser(script)
+        _TAP.update(q=q, script=sbytes, control=control, leaf_hash=_taproot.leaf_hash(0xC0, sbytes))
+    return _TAP
+
+
+@ob("C10", "finalized_taproot_script_spend_is_verified_against_the_signed_digest", quick=[dict(explicit=e) for e in (0, 1)],
+    bound="a version 0 PSBT with one taproot input spent through a single-key leaf of a two-leaf tree (the output key, control block and leaf hash are computed concretely with real SHA-256 and "
+          "secp256k1); amount, sequence, lock time, version and (explicit = 1) the hash type symbolic: finalize builds [signature, script, control block], verify_input checks the commitment for real and "
+          "runs the leaf; the digest the engine hands to BIP340 verification is the Finalizer's and psbt.taproot_sig_hash(leaf_hash=...), over the leaf key and the 64 signature bytes; the engine accepts",
+    stubs=["ssa.verify_ (Finalizer) and tapscript.ssa_verify (engine) record their arguments and answer True", "sha256 of symbolic data is an injective uninterpreted function; of concrete data the real one"],
+    functions=["btclib.psbt.psbt._finalized_taproot_input", "btclib.script.engine._verify_taproot", "btclib.script.engine.tapscript.op_checksig", "btclib.script.taproot.check_output_pubkey"],
+    min_ok=1, timeout=600)
+def taproot_script_closure(ex, explicit):
+    from sx import instr
+    if not ex.concrete:
+        instr.HASH_INJECTIVE = True
+    ex.concrete_randomness()
+    t = _tap_setup()
+    version = ex.int("version", 1, 0xFFFFFFFF)
+    lock = ex.int("lock", 0, 499_999_999)
+    amt = ex.int("amt", 1000, 2_100_000_000_000_000 // 4)
+    seq = ex.int("seq", 0, 0xFFFFFFFF)
+    spk = b"\x51\x20" + t["q"]
+    tx = Tx(version, lock, [TxIn(OutPoint(b"\x31" * 32, 0, check_validity=False), b"", seq, Witness(), check_validity=False)],
+            [TxOut(ex.int("paid", 546, 1_000_000), b"\x00\x14" + b"\x42" * 20, check_validity=False)], check_validity=False)
+    p = Psbt.from_tx(tx, check_validity=False)
+    sig64 = _G + b"\x22" * 32
+    if explicit:
+        ht = ex.int("ht", 1, 0x83)
+        ex.assume(sor(*[ht == v for v in _ECDSA_HT]))
+        sig = sig64 + bytes([ht])
+    else:
+        ht, sig = 0, sig64
+    pin = p.inputs[0]
+    pin.witness_utxo = TxOut(amt, spk, check_validity=False)
+    pin.taproot_leaf_scripts = {t["control"]: (t["script"], 0xC0)}
+    pin.taproot_script_spend_signatures = {_G2 + t["leaf_hash"]: sig}
+    pin.taproot_internal_key = _G
+    if explicit:
+        pin.sig_hash_type = ht
+    fin_calls, eng_calls = [], []
+    ex.stub(_psbt.ssa.verify_, lambda m, k, s, *a, **kw: fin_calls.append((m, k, s)) or True)
+    ex.stub(_tapscript.ssa_verify, lambda m, k, s: eng_calls.append((m, k, s)) or True)
+    want = _psbt.taproot_sig_hash(p, 0, leaf_hash=t["leaf_hash"], hash_type=ht)
+    try:
+        final = extract_tx(finalize(p))
+    except BTClibValueError:
+        return {"an_honestly_signed_psbt_finalizes": False}
+    wit = final.vin[0].script_witness.stack
+    claims = {"witness_is_signature_script_control_block": sand(len(wit) == 3, wit[0] == sig, wit[1] == t["script"], wit[2] == t["control"]) if len(wit) == 3 else False,
+              "finalizer_checked_the_signature_once": len(fin_calls) == 1}
+    try:
+        verify_input([TxOut(amt, spk, check_validity=False)], final, 0, _flags())
+        ok = True
+    except (ScriptError, BTClibValueError):
+        ok = False
+    claims["engine_accepts_the_finalized_spend"] = ok
+    if len(eng_calls) == 1 and fin_calls:
+        d_e, key_e, sig_e = eng_calls[0]
+        claims["engine_digest_is_the_signed_digest"] = sand(d_e == want, fin_calls[0][0] == want)
+        claims["engine_checks_the_leaf_key_and_signature"] = sand(key_e == _G2, sig_e == sig64)
+    else:
+        claims["engine_checks_one_signature"] = False
+    return claims
